@@ -125,7 +125,7 @@ def main():
         return rec
     finally:
         shutil.rmtree(w, ignore_errors=True)
-        shutil.rmtree(os.path.join(VERIF, "replays"), ignore_errors=True)
+        shutil.rmtree(os.path.join(VERIF, "build", "alt", os.path.basename(w)), ignore_errors=True)
         with open(os.path.join(dest, "meta.json"), "w") as f:
             json.dump(rec, f, indent=1)
         print(json.dumps({k: rec.get(k) for k in ("id", "verdict", "caught_by", "broken_checks", "demo_patched_rc")}))
